@@ -15,8 +15,30 @@ class Deadlock(Exception):
     pass
 
 
-STALL_S = 0.25          # a baton holder that reaches no scheduling point for this long is blocked in a real wait
-HORIZON_S = 30.0
+import os
+import time
+
+STALL_S = 0.25          # base interval; see Sched.run: a stall needs NO scheduling point AND NO cpu time of the holder
+HORIZON_S = 60.0
+NCPU = os.cpu_count() or 1
+
+
+def _thread_cpu(thread):
+    """CPU seconds consumed by one thread (Linux: per-thread CPU-time clock); None where unavailable."""
+    try:
+        return time.clock_gettime(time.pthread_getcpuclockid(thread.ident))
+    except Exception:
+        return None
+
+
+def _stall_interval():
+    """Wall-clock interval without progress after which the holder is examined.  It grows with the machine's
+    load so that a runnable thread that is merely waiting for a core is given many scheduler periods."""
+    try:
+        load = os.getloadavg()[0]
+    except OSError:
+        load = 0.0
+    return STALL_S * max(1.0, 2.0 * load / NCPU)
 
 
 class Sched(object):
@@ -36,6 +58,7 @@ class Sched(object):
         self.blocked = set()      # threads found waiting on a real primitive (lock, future, event) of the code under test
         self.guard = threading.Lock()
         self.stalls = 0
+        self.error = None
 
     def pick(self, running, finished=False):
         enabled = [i for i in range(self.n) if not self.done[i]]
@@ -46,7 +69,11 @@ class Sched(object):
         if self.step < len(self.choices):
             k = self.choices[self.step]
             if k >= len(enabled):
-                raise IndexError("schedule prefix out of range at step %d" % self.step)
+                # the execution no longer follows the recorded one (possible only below a run in which a
+                # stalled holder was passed over); never raised into the traced code: the run is marked and
+                # explore() leaves it unjudged
+                self.error = "prefix out of range at step %d" % self.step
+                k = 0
         else:
             k = 0
         cost = 1 if (k > 0 and not finished) else 0
@@ -117,7 +144,6 @@ class Sched(object):
                 self.fin.set()
 
     def run(self):
-        self.error = None
         ts = [threading.Thread(target=self.run_thread, args=(i,), daemon=True) for i in range(self.n)]
         for t in ts:
             t.start()
@@ -125,10 +151,14 @@ class Sched(object):
         # The main thread watches for a baton holder that stops reaching scheduling points: it sits in a real
         # wait (a lock, future or event the code under test uses).  The baton then goes to the lowest-numbered
         # thread that is neither finished nor known to be blocked; if there is none, that is a deadlock.
-        import time
+        # "Stops" means: no scheduling point reached AND no CPU time consumed by the holder over the interval (a
+        # runnable thread that only waits for a core on a busy machine does consume CPU time over the
+        # load-scaled interval; a thread in a wait consumes none), so machine load cannot fake a stall.
         t0 = time.time()
         last = (-1, -1)
         since = time.time()
+        cpu0 = None
+        need = _stall_interval()
         while not self.fin.wait(0.05):
             now = time.time()
             if now - t0 > HORIZON_S:
@@ -137,11 +167,19 @@ class Sched(object):
                 seen = (self.step, self.current)
                 if seen != last:
                     last, since = seen, now
+                    cpu0 = _thread_cpu(ts[self.current])
+                    need = _stall_interval()
                     continue
-                if now - since < STALL_S:
+                if now - since < need:
                     continue
                 cur = self.current
                 if self.done[cur]:
+                    continue
+                cpu1 = _thread_cpu(ts[cur])
+                if cpu0 is None or cpu1 is None or cpu1 - cpu0 > 0.0005:
+                    # the holder is (slowly) running, or we cannot tell: not a stall; look again later
+                    since, cpu0 = now, cpu1
+                    need = _stall_interval()
                     continue
                 self.blocked.add(cur)
                 self.stalls += 1
@@ -152,6 +190,7 @@ class Sched(object):
                 self.points.append((cur, tuple([cur] + others), 1, 0))
                 last, since = (self.step, self.current), now
                 nxt = others[0]
+                cpu0 = _thread_cpu(ts[nxt])
             self.sem[nxt].release()
         for t in ts:
             t.join(5)
@@ -175,6 +214,9 @@ def explore(make_bodies, check, pkg, gran, bound, first_range=None, max_schedule
             out["schedules"] += 1
             out["problems"].append((list(prefix), {"deadlock": str(e)}))
             return s.points
+        if s.error:
+            out["diverged"] = out.get("diverged", 0) + 1
+            return points
         out["schedules"] += 1
         out["steps"] += len(points)
         p = sum(pt[3] for pt in points)
